@@ -108,3 +108,18 @@ def judge(case, impl, model, spec=None):
 
 def nontrivial(case, impl):
     return case if "m(" in impl else None
+
+
+def extra(ctx):
+    """F33: is there a release routine for the parsed deauthentication / disassociation objects?"""
+    import glob, os
+    from lib import vcore as V
+    viol = []
+    hdrs = ""
+    for p in glob.glob(os.path.join(V.REPO, "src", "libwifi", "**", "*.h"), recursive=True):
+        hdrs += open(p, errors="replace").read()
+    for nm in ("parsed_deauth", "parsed_disassoc"):
+        if not re.search(r"\bvoid\s+libwifi_free_\w*\s*\(\s*struct\s+libwifi_%s\s*\*" % nm, hdrs):
+            viol.append(("no-release-routine:" + nm, "struct libwifi_%s owns tags.parameters but no libwifi_free_* routine takes it" % nm,
+                         {"case": "api-scan " + nm}))
+    return viol
